@@ -28,11 +28,14 @@ DEADLINE_S = {'quick': 240, 'thorough': 2400}
 
 def enum_cases(tier):
 	L, h = (6, 1) if tier == 'quick' else (8, 2)
+	n = 0
 	for alpha in ALPHABETS:
 		for k, p in SPECS:
-			yield {'kind': 'block', 'alphabet': alpha, 'k': k, 'prefix': p, 'L': L, 'head': None, 'h': h}
+			yield {'kind': 'block', 'alphabet': alpha, 'k': k, 'prefix': p, 'L': L, 'head': None, 'h': h, 'spec_spelling': 0}
 			for head in itertools.product(alpha, repeat=h):
-				yield {'kind': 'block', 'alphabet': alpha, 'k': k, 'prefix': p, 'L': L, 'head': ''.join(head), 'h': h}
+				# the specification object is reached in a different legal way in each block (prefix case / type, NumPy k, pickled copy)
+				n += 1
+				yield {'kind': 'block', 'alphabet': alpha, 'k': k, 'prefix': p, 'L': L, 'head': ''.join(head), 'h': h, 'spec_spelling': n}
 
 
 def _imports():
@@ -72,7 +75,7 @@ def run_case(case, ctx):
 	if kind == 'block':
 		k, p = case['k'], case['prefix']
 		pb = p.encode()
-		kspec = KmerSpec(k, p)
+		kspec = R.spell_spec(KmerSpec, k, p, case.get('spec_spelling', 0))
 		alpha = case['alphabet']
 		L, h = case['L'], case['h']
 		evals = nt = 0
@@ -95,7 +98,7 @@ def run_case(case, ctx):
 	if kind == 'seqs':
 		k, p = case['k'], case['prefix']
 		pb = p.encode()
-		kspec = KmerSpec(k, p)
+		kspec = R.spell_spec(KmerSpec, k, p, case.get('spec_spelling', 0))
 		seqs = [s.encode('latin-1') for s in case['seqs']]
 		exp = R.ref_signature(seqs, k, pb)
 		ascii_ok = all(b < 128 for s in seqs for b in s)
@@ -164,6 +167,7 @@ def run_case(case, ctx):
 			classes.add('reverse_only_kmer')
 		classes.add('k:1-6' if k <= 6 else 'k:7-12' if k <= 12 else 'k:13-32')
 		classes.add(f'nseqs={min(len(seqs), 3)}')
+		classes.add('spec_spelling=%d' % (case.get('spec_spelling', 0) % R.SPEC_SPELLINGS))
 		if case.get('poison'):
 			classes.add('after_failed_call')
 		if ascii_ok:
@@ -240,6 +244,7 @@ def seqs_case(draw, tier):
 	nseq = draw(st.sampled_from([1, 1, 2, 3, 4]))
 	seqs = [one_seq() for _ in range(nseq)]
 	return {'kind': 'seqs', 'k': k, 'prefix': prefix, 'seqs': seqs, 'dense12': draw(st.integers(0, 9)) == 9,
+	        'spec_spelling': draw(st.sampled_from([0, 1, 2, 3, 0, 4, 5, 6, 7])),
 	        'poison': draw(st.sampled_from([None, None, 'bad_type', 'non_ascii_str', 'none']))}
 
 
